@@ -10,6 +10,7 @@ import Driver.Backup
 import Driver.CalcSteps
 import Driver.Struct
 import Driver.SMech
+import Driver.Serial
 /-! `mxdriver <layer>`: reads one operation per line on stdin, prints one observation per line. -/
 def main (args : List String) : IO UInt32 := do
   match args with
@@ -25,4 +26,5 @@ def main (args : List String) : IO UInt32 := do
   | ["calcsteps"] => Driver.CalcSteps.main; return 0
   | ["struct"] => Driver.Struct.main; return 0
   | ["smech"] => Driver.SMech.main; return 0
+  | ["serial"] => Driver.Serial.main; return 0
   | _ => IO.eprintln "usage: mxdriver <layer>"; return 2
